@@ -37,12 +37,12 @@ type HistCase struct {
 
 var histOps = []string{"reroot", "rerootfirst", "unroot", "midpoint", "outgroup", "prune", "prunekeep", "collapselen", "collapsesup", "collapsedepth",
 	"removeedges", "collapseclade", "resolve", "rotate", "sort", "removesingle", "clone", "subtree", "nniapply", "nniapplyundo", "insertidentical", "graft", "merge",
-	"rename", "renameauto", "renameregexp", "shuffle", "reinit", "clearlen", "clearsup", "clearcomments", "scale", "round", "addcomment", "editcomment", "resolvenamed", "nnihold", "nniundoheld", "insertidentical1"}
+	"rename", "renameauto", "renameregexp", "shuffle", "reinit", "clearlen", "clearsup", "clearcomments", "scale", "round", "addcomment", "editcomment", "resolvenamed", "nnihold", "nniundoheld", "insertidentical1", "grafttip"}
 
 // structure-changing operations (for the non-triviality rule)
 var structOps = map[string]bool{"reroot": true, "rerootfirst": true, "unroot": true, "midpoint": true, "outgroup": true, "prune": true, "prunekeep": true,
 	"collapselen": true, "collapsesup": true, "collapsedepth": true, "removeedges": true, "collapseclade": true, "resolve": true, "rotate": true, "sort": true,
-	"removesingle": true, "subtree": true, "resolvenamed": true, "nniapply": true, "insertidentical": true, "insertidentical1": true, "graft": true, "merge": true, "shuffle": true}
+	"removesingle": true, "subtree": true, "resolvenamed": true, "nniapply": true, "insertidentical": true, "insertidentical1": true, "graft": true, "grafttip": true, "merge": true, "shuffle": true}
 
 func genTreeText(rt *rapid.T, prefix string, minTips, maxTips int, comments bool) string {
 	n := drawTaxa(rt, minTips, maxTips)
@@ -424,6 +424,17 @@ func applyOp(st *histState, op HOp) (desc string, err error) {
 		}
 		st.groups = groups
 		return fmt.Sprintf("InsertIdenticalTips(%v)", groups), t.InsertIdenticalTips(groups)
+	case "grafttip":
+		// a new tip in the middle of a drawn branch (no re-index before or after: the function does not ask for one)
+		es := t.Edges()
+		if len(es) == 0 {
+			return opSkip, nil
+		}
+		st.serial++
+		n := t.NewNode()
+		n.SetName(fmt.Sprintf("T%d", st.serial))
+		_, _, _, e := t.GraftTipOnEdge(n, es[op.A%len(es)])
+		return fmt.Sprintf("GraftTipOnEdge(T%d, branch#%d)", st.serial, op.A%len(es)), e
 	case "insertidentical1":
 		// the single-tip function: it keeps the tip index up to date by itself (its documentation says so)
 		if !fresh {
